@@ -143,8 +143,9 @@ CFG = {
                   'the implementation (a test), which finds them false on the class of the open finding F9.',
     'level_note': 'trusted: Coq kernel; hand-written skeleton; the named hypotheses (N3e), (N4e), (V3e), (V4e) exactly as '
                   'written in coq/Props/C14.v; harness and driver. The earlier form of the hypotheses ("the cost kernel is not '
-                  'NaN for EVERY parameter vector") was unsatisfiable by any binary64 kernel and is no longer pinned; '
-                  'Fit_proofs.fit_skeleton_total_lemma / vertex_skeleton_total_lemma keep it only because C09 imports them. '
+                  'NaN for EVERY parameter vector") was unsatisfiable by any binary64 kernel; the lemmas that carried it '
+                  '(Fit_proofs.fit_skeleton_total_lemma / vertex_skeleton_total_lemma) have been removed, C09 uses the '
+                  'evaluated-vector lemmas too. '
                   'The vertex skeleton has no differential of its own (see trusted)',
     'note': 'rel14* lines: implementation-only oracle (holds / fails <detail>), the model runner answers `holds`; a `fails` '
             'line is an input of the quantified domain on which the implementation panics or returns non-finite geometry. '
